@@ -102,6 +102,7 @@ fn directed(index: u64, ctx: &mut Ctx) -> Outcome {
         s2c: vec![Chan { id: 0, kind: Kind::Ordered, max_mem: 3000, resend_ms: 100 }],
         c2s: vec![Chan { id: 0, kind: Kind::Ordered, max_mem: 3000, resend_ms: 100 }],
         n_clients: 1,
+        id_scheme: 0,
     };
     let mut w = World::new(cfg, Oracles { memory: true, release: true, ..Default::default() });
     w.prompt_drain = true;
